@@ -21,7 +21,15 @@ for p in "$@"; do
   out=$(VERIF_ONLY=${ONLY:-} timeout 1800 ./vcheck run $p ${TIER:-quick} 2>&1); rc=$?
   nv=$(echo "$out" | grep -c '^VIOLATION ')
   first=$(echo "$out" | grep -A1 '^VIOLATION ' | sed -n 2p | cut -c1-220)
-  if [ $rc -eq 1 ]; then echo "MUTANT $(basename $(dirname $patch)) $p: KILLED ($nv violations) e.g.$first";
+  # margin: how many cases of the run hit a violation (not only the handful that is reported)
+  margin=$(python3 - "$S/verif/evidence/$p.json" <<'PY' 2>/dev/null
+import json,sys
+try:
+    j=json.load(open(sys.argv[1])); print(sum(e.get('counters',{}).get('violating_cases',0) for e in j['coverage']['engines'].values()))
+except Exception: print('?')
+PY
+)
+  if [ $rc -eq 1 ]; then echo "MUTANT $(basename $(dirname $patch)) $p: KILLED ($nv violations, $margin violating cases) e.g.$first";
   elif [ $rc -eq 0 ]; then echo "MUTANT $(basename $(dirname $patch)) $p: survived";
   else echo "MUTANT $(basename $(dirname $patch)) $p: BROKEN rc=$rc $(echo "$out" | tail -3 | tr '\n' ' ' | cut -c1-300)"; fi
 done
